@@ -125,11 +125,23 @@ pub fn run_check(id: &str, tier: &str) -> i32 {
     }
     let t0 = Instant::now();
     let thorough = tier == "thorough";
-    let base_seed: u64 = std::env::var("VERIF_SEED").ok().and_then(|s| s.parse().ok()).unwrap_or(20260921);
-    let budget_s: u64 = std::env::var("VERIF_BUDGET_S").ok().and_then(|s| s.parse().ok()).unwrap_or(if thorough { 600 } else { 60 });
+    let base_seed: u64 = std::env::var("VERIF_SEED").ok().and_then(|s| s.parse().ok()).unwrap_or(1);
+    // fixed number of runs per tier (~60 s / ~600 s on the reference VM); wall-clock cap only as a safety net;
+    // VERIF_BUDGET_S alone keeps the old "as many as fit" behaviour for sweeps
+    let budget_env: Option<u64> = std::env::var("VERIF_BUDGET_S").ok().and_then(|s| s.parse().ok());
+    let budget_s: u64 = budget_env.unwrap_or(if thorough { 2400 } else { 240 });
     let workers: usize = std::env::var("VERIF_WORKERS").ok().and_then(|s| s.parse().ok()).unwrap_or(8);
-    let max_runs: u64 = std::env::var("VERIF_MAX_RUNS").ok().and_then(|s| s.parse().ok()).unwrap_or(u64::MAX);
-    println!("dsim: property={} tier={} VERIF_SEED={} budget={}s workers={}", id, tier, base_seed, budget_s, workers);
+    let q_runs: u64 = match id {
+        "C18" => 3000,
+        "C22" => 3500,
+        "C23" => 3500,
+        _ => 3300,
+    };
+    let max_runs: u64 = std::env::var("VERIF_MAX_RUNS")
+        .ok()
+        .and_then(|s| s.parse().ok())
+        .unwrap_or(if budget_env.is_some() { u64::MAX } else if thorough { q_runs * 10 } else { q_runs });
+    println!("dsim: property={} tier={} VERIF_SEED={} runs={} cap={}s workers={}", id, tier, base_seed, if max_runs == u64::MAX { "unbounded".to_string() } else { max_runs.to_string() }, budget_s, workers);
     let deadline = t0 + Duration::from_secs(budget_s);
     let next = AtomicU64::new(0);
     struct Agg {
@@ -212,7 +224,7 @@ pub fn run_check(id: &str, tier: &str) -> i32 {
             new_by_rule.entry(f.rule.clone()).or_default().push((*i, *s, f.clone()));
         }
     }
-    let replay_dir = verif_root().join("replays");
+    let replay_dir = std::env::var("VERIF_REPLAY_DIR").map(PathBuf::from).unwrap_or_else(|_| verif_root().join("replays"));
     let _ = std::fs::create_dir_all(&replay_dir);
     let mut lines = Vec::new();
     for (rule, list) in new_by_rule.iter() {
@@ -274,7 +286,7 @@ pub fn run_check(id: &str, tier: &str) -> i32 {
         "wall_s": wall,
         "violations": new_by_rule.len(),
     });
-    let evdir = verif_root().join("evidence");
+    let evdir = std::env::var("VERIF_EVIDENCE_DIR").map(PathBuf::from).unwrap_or_else(|_| verif_root().join("evidence"));
     let _ = std::fs::create_dir_all(&evdir);
     std::fs::write(evdir.join(format!("{}.json", id)), serde_json::to_vec_pretty(&ev).unwrap()).expect("evidence");
     println!("dsim: {} runs, {} distinct non-trivial, {:.1}s, violations={}, known={}, harness_errors={}, nondet={}", a.runs, a.keys.len(), wall, new_by_rule.len(), known_hits.len(), a.errors.len(), a.nondet.len());
